@@ -179,6 +179,22 @@ WANT_LIT = {
     "newline": "new\nline",
     "unicode": "❄ é 日本 \U0001f389",
     "percent": "100% %s",
+    # white space, case and normal form are data
+    "tab": "a\tb",
+    "tab_lead": "\tx",
+    "pad_spaces": "  pad  ",
+    "only_spaces": "   ",
+    "multi_spaces": "a  b   c",
+    "cr": "a\rb",
+    "crlf": "a\r\nb",
+    "vt_ff": "a\x0bb\x0cc",
+    "indented_lines": "first\n    second\n    third",
+    "tab_indented_lines": "first\n\tsecond",
+    "blank_line": "a\n\nb",
+    "nl_ends": "\nline\n",
+    "mixed_case": "MiXeD select FROM",
+    "nfd": "e\u0301x",
+    "unicode_spaces": "a\u00a0b\u2003c\u3000d",
 }
 check("LITS ids", sorted(c16.LITS), sorted(WANT_LIT))
 for lid, want in WANT_LIT.items():
@@ -187,6 +203,24 @@ check("lit_value dq d_bs", c16.lit_value("dq", "d_bs"), "a\\tb")
 check("lit_value dq d_quotes", c16.lit_value("dq", "d_quotes"), "'';\"x\"")
 check("lit_value id i_dq", c16.lit_value("id", "i_dq"), 'a"b')
 check("lit_value id i_semi", c16.lit_value("id", "i_semi"), "Qu;oted")
+check("lit_value dq d_tab", c16.lit_value("dq", "d_tab"), "a\tb")
+check("lit_value dq d_indented_lines", c16.lit_value("dq", "d_indented_lines"), "begin\n    end")
+check("lit_value dq d_crlf", c16.lit_value("dq", "d_crlf"), "a\r\nb")
+check("lit_value id i_pad_spaces", c16.lit_value("id", "i_pad_spaces"), "  a  b ")
+check("lit_value id i_tab", c16.lit_value("id", "i_tab"), "a\tb")
+# white space inside constants survives the reference splitter byte for byte, outside it is normalised
+check("split keeps tab in constant", codes("select\t'a\tb' ;"), ["select 'a\tb'"])
+check("split keeps indented lines", codes("  select\n    'first\n    second';\n  select 2"), ["select 'first\n    second'", "select 2"])
+check("split keeps crlf in constant", lits("select 'a\r\nb'\r\n;"), [[("str", "a\r\nb")]])
+check("split keeps blanks in $$", lits("select $$  x\n    y  $$"), [[("dstr", "  x\n    y  ")]])
+check("split keeps blanks in identifier", [t[2] for t in S.tokens('select 1 as "  a  b "') if t[0] == "ident"], ["  a  b "])
+# layouts
+check("layout oneline", c16.template_statements("insert", "tab", "oneline", "alone"),
+      ["insert into t values (3, 'a\tb')", "select v from t where k = 3"])  # fmt: skip
+check("layout indented", c16.template_statements("insert", "indented_lines", "indented", "sentinel"),
+      ["insert into t\n    values (3, 'first\n    second\n    third')", "select v\n    from t\n    where k = 3", "select 2"])  # fmt: skip
+check("layout indented select", c16.template_statements("select_dollar", "d_indented_lines", "indented", "alone"),
+      ["select\n    $$begin\n    end$$"])  # fmt: skip
 for q in c16.LITS_QUICK:
     check(f"quick lit {q} known", q in c16.LITS, True)
 for q in c16.DLITS_QUICK:
@@ -203,9 +237,12 @@ WANT_STYLE = {
     "lc_lead": "-- c\nselect 'a;b';\n-- c\ninsert into t values (3, 'x''y; -- z');\n",
     "lc_trail_eof": "select 'a;b'; -- c\ninsert into t values (3, 'x''y; -- z'); -- c",
     "bc_before_semi": "select 'a;b' /* c */ ; insert into t values (3, 'x''y; -- z') /* c */",
-    "inline_bc": "select /* mid; */ 'a;b'; insert /* mid; */ into t values (3, 'x''y; -- z');",
-    "inline_lc": "select -- mid; 'q\n'a;b'; insert -- mid; 'q\ninto t values (3, 'x''y; -- z');",
+    "inline_bc": "select /* mid; */  'a;b'; insert /* mid; */  into t values (3, 'x''y; -- z');",
+    "inline_lc": "select -- mid; 'q\n 'a;b'; insert -- mid; 'q\n into t values (3, 'x''y; -- z');",
+    "inline_lc_own_line": "select\n-- mid; 'q\n 'a;b'; insert\n-- mid; 'q\n into t values (3, 'x''y; -- z');",
     "lead_semis": ";; -- x\n; select 'a;b'; insert into t values (3, 'x''y; -- z')",
+    "indented_block": "\n        select 'a;b';\n        insert into t values (3, 'x''y; -- z');\n    ",
+    "tab_block": "\tselect 'a;b'\t;\n\tinsert into t values (3, 'x''y; -- z')\t;\n",
 }
 for st, want in WANT_STYLE.items():
     check(f"style {st}", c16.STYLES[st](TWO), want)
@@ -215,12 +252,15 @@ for st, fn in c16.STYLES.items():
     check(f"style {st} one word", codes(fn(["begin", "commit"])), ["begin", "commit"])
     for tid, (tmpl, fam, _probe) in c16.TEMPLATES.items():
         for lid in c16.lit_alphabet(fam, "thorough"):
-            stmts = [s.replace("{L}", c16.lit_source(fam, lid)) for s in tmpl] + [c16.SENTINEL]
-            N[0] += 1
-            try:
-                c16.check_split(stmts, fn(stmts))
-            except Exception as e:  # noqa: BLE001
-                FAILS.append(f"style {st} x {tid} x {lid}: {e}")
+            for layout in c16.LAYOUTS:
+                stmts = c16.template_statements(tid, lid, layout, "sentinel")
+                N[0] += 1
+                try:
+                    pieces = c16.check_split(stmts, fn(stmts))
+                    if fam != "id" and pieces[0]["literals"][-1][1] != c16.lit_value(fam, lid):
+                        FAILS.append(f"style {st} x {tid} x {lid} x {layout}: literal value changed by composition")
+                except Exception as e:  # noqa: BLE001
+                    FAILS.append(f"style {st} x {tid} x {lid} x {layout}: {e}")
 for kid, stmts in c16.KINDS.items():
     for st, fn in c16.STYLES.items():
         N[0] += 1
@@ -333,7 +373,7 @@ one_fail_parse_at1 = side(1, ("c0",), E2)
 one_fail_rt_at1 = side(1, ("c0",), E1)
 one_fail_rt_at0 = side(0, (), E1)
 ck = lambda item, one, clause: c16.class_key(clause, item, one)  # noqa: E731
-check("class LIT", ck(("LIT", "select", "semi", "alone"), one_ok, "C16.result"), "tmpl=select,lit=semi")
+check("class LIT", ck(("LIT", "select", "semi", "oneline", "alone"), one_ok, "C16.result"), "tmpl=select,lit=semi")
 check("class KIND", ck(("KIND", "object"), one_ok, "C16.result"), "kind=object")
 check("class LIST digest parse first", ck(("LIST", "ix"), one_fail_parse_at1, "C16.digest"), "list:unparsable=present,effect-before")
 check("class LIST digest parse first no effect", ck(("LIST", "qx"), one_fail_parse_at1, "C16.digest"), "list:unparsable=present,no-effect-before")
@@ -343,8 +383,58 @@ check("class LIST digest parse later", ck(("LIST", "ifx"), one_fail_rt_at1, "C16
 check("class LIST digest runtime only", ck(("LIST", "fi"), one_fail_rt_at0, "C16.digest"), "list:unparsable=none,no-effect-before")
 check("class LIST result not applicable on failure", ck(("LIST", "fi"), one_fail_rt_at0, "C16.result"), None)
 check("class LIST count not applicable on failure", ck(("LIST", "fi"), one_fail_rt_at0, "C16.count"), None)
-check("class literal only for probed templates", ck(("LIT", "set_var", "semi", "alone"), one_ok, "C16.literal"), None)
-check("class literal", ck(("LIT", "insert", "semi", "alone"), one_ok, "C16.literal"), "tmpl=insert,lit=semi")
+check("class literal only for probed templates", ck(("LIT", "set_var", "semi", "oneline", "alone"), one_ok, "C16.literal"), None)
+check("class literal", ck(("LIT", "insert", "semi", "indented", "alone"), one_ok, "C16.literal"), "tmpl=insert,lit=semi")
+
+# ---- 9b. cursor histories (NOPH): reference reading of the one-row status, alphabets consistent ----------------------
+ST = "Statement executed successfully."
+check("status all tuple", c16.h_expected_status("all", "tuple"), [("all", [(ST,)]), ("then-one", None)])
+check("status ones dict", c16.h_expected_status("one_by_one", "dict"), [("ones", [{"status": ST}, None])])
+check("status many", c16.h_expected_status("many2", "tuple"), [("many", [(ST,)], [])])
+for ps, targets in c16.H_MATCHING.items():
+    for sql, params in targets:
+        check(f"H_MATCHING {ps} {sql!r} matches", c16.nop_expected_match(ps, sql, params), True)
+    for sql, params in c16.H_OTHER:
+        check(f"H_OTHER {sql!r} does not match {ps}", c16.nop_expected_match(ps, sql, params), False)
+    for pid, ops in c16.H_PRIORS.items():
+        for op in ops:
+            if op[0] == "exec":
+                check(f"prior {pid} statement does not match {ps}", c16.nop_expected_match(ps, op[1], None), False)
+check("quick priors known", all(p in c16.H_PRIORS for p in c16.H_PRIORS_QUICK), True)
+check("every non-empty pattern set has a matching history target", sorted(p for p, t in c16.H_MATCHING.items() if not t), ["empty", "none"])
+
+# inline comments (reference): only comments with code of the same statement on both sides
+check("inline none", S.inline_comments("-- a\nselect 1; /* b */ select 2 /* c */ ; -- d"), [])
+check("inline block", S.inline_comments("select /* m; */ 1; select 2"), [("/* m; */", False)])
+check("inline line", S.inline_comments("select 1; select -- it's\n 2 -- t\n;"), [("-- it's", False)])
+check("inline own line", S.inline_comments("select\n  -- it's\n 2"), [("-- it's", True)])
+check("inline two", S.inline_comments("select /* a */\n /* b */ 2"), [("/* a */", False), ("/* b */", True)])
+check("inline after line comment", S.inline_comments("select -- a\n/* b */ 2"), [("-- a", False), ("/* b */", True)])
+check("inline not in constant", S.inline_comments("select '/* x */ -- y' , 1"), [])
+check("_inline same line", c16._inline("select\n    'x'", "-- c\n"), "select -- c\n\n    'x'")
+check("_inline own line", c16._inline("select 'x'", "-- c\n", own_line=True), "select\n-- c\n 'x'")
+check("_inline one word", c16._inline("begin", "/* c */ "), "begin /* c */ ")
+check(
+    "class with quote in inline comment",
+    c16.class_key("C16.literal", ("LIT", "select", "tab", "oneline", "alone"), one_ok, True, "select -- it's\n 'a'"),
+    "tmpl=select,lit=tab,quote-in-inline-comment=same-line",
+)
+check(
+    "class with plain inline comment",
+    c16.class_key("C16.literal", ("LIT", "select", "tab", "oneline", "alone"), one_ok, True, "select /* m */ 'a'; -- it's"),
+    "tmpl=select,lit=tab",
+)
+
+check(
+    "class SET with own-line comment",
+    c16.class_key("C16.failure", ("LIT", "set_var", "tab", "oneline", "alone"), one_ok, True, "set\n-- mid; 'q\n v = 'a'; select\n-- x\n $v"),
+    "tmpl=set_var,own-line-comment-before-name",
+)
+check(
+    "class SET with same-line comment",
+    c16.class_key("C16.result", ("LIT", "set_var", "tab", "oneline", "alone"), one_ok, True, "set -- mid; 'q\n v = 'a'"),
+    "tmpl=set_var,lit=tab,quote-in-inline-comment=same-line",
+)
 
 # ---- 10. enumeration sizes are what the bounds say ---------------------------------------------------------------------
 for tier in ("quick", "thorough"):
